@@ -42,6 +42,7 @@ def gen(t):
     a('w_planesM', 'Plane3<%s> (&p)[6], const %s& f, const %s& m' % (E, F, M4), 'f.planes(p, m);')
     a('w_setfov', '%s& f, const %s& n, const %s& fa, const %s& fx, const %s& fy, const %s& as' % (F, E, E, E, E, E), 'f.set(n, fa, fx, fy, as);')
     a('w_window', '%s& o, const %s& f, const %s& l, const %s& r, const %s& tp, const %s& b' % (F, F, E, E, E, E), 'o = f.window(l, r, tp, b);')
+    a('w_mnf', '%s& f, const %s& n, const %s& fa' % (F, E, E), 'f.modifyNearAndFar(n, fa);')
     a('w_ft_set', '%s& ft, const %s& f, const %s& m' % (FT, F, M4), 'ft.setFrustum(f, m);')
     a('w_ft_vis_pt', 'bool& o, const %s& ft, const %s& p' % (FT, V3), 'o = ft.isVisible(p);')
     a('w_ft_vis_box', 'bool& o, const %s& ft, const Box<%s >& b' % (FT, V3), 'o = ft.isVisible(b);')
@@ -273,6 +274,31 @@ def main(rep, ws, tier):
                 if not (ctx.requal(half, want1) or ctx.requal(half, want2)): return ('half extent is %s, expected near*tan(fov/2)' % P.show_rat(half, ctx)[:120], None, fn_where(S.fn))
             return (None, 'symmetric window, half extent = near*tan(fov/2), (right-left) = aspect*(top-bottom) for both fov choices', fn_where(S.fn))
         ob('set(near,far,fovx,fovy,aspect)', 'R16.proj', setfov)
+
+        def modnf():
+            # modifyNearAndFar(n, f): near = n, far = f; a perspective window is the old one seen at the new near plane
+            # (every edge scaled by n / near - the viewing pyramid is unchanged), an orthographic window is kept
+            S = S_('w_mnf')
+            outs0 = [S.out('a0', 8 + i * sz, sz, lt) for i in range(6)]
+            n_ = 0
+            for ortho in (False, True):
+                outs = fix_ortho(outs0, 'a0', t, ortho)
+                def premise(c):
+                    if c.op == 'fcmp' and c.attr == 'olt' and c.args[1].op == 'const' and 0 < T.const_value(c.args[1]) < Fraction(1, 10 ** 30): return False
+                    return None
+                for asg, res in PC.generic_cases(outs, P.Ctx(), premise=premise, enumerate_cond=lambda c: c.op == 'fcmp' and c.attr in ('olt', 'ole')):
+                    ctx = P.Ctx(); ctx.cancel = True; n_ += 1
+                    got = [ctx.rat(x) for x in res]
+                    nr, fa, l, r, tp, b = fr(ctx, 'a0')
+                    nn = atom(ctx, agg.scalar_in('a1', t)); ff = atom(ctx, agg.scalar_in('a2', t))
+                    if not ctx.requal(got[0], nn) or not ctx.requal(got[1], ff): return ('near/far are not set to the arguments (%s frustum)' % ('orthographic' if ortho else 'perspective'), None, fn_where(S.fn))
+                    k = (P.pconst(1), ONE) if ortho else ctx.rdiv(nn, nr)
+                    for i, (nm, old_) in enumerate((('left', l), ('right', r), ('top', tp), ('bottom', b))):
+                        if not ctx.requal(got[2 + i], ctx.rmul(old_, k)):
+                            return ('%s frustum: %s becomes %s, expected %s%s' % ('orthographic' if ortho else 'perspective', nm, P.show_rat(got[2 + i], ctx)[:120], nm, '' if ortho else ' * n / near'), None, fn_where(S.fn))
+            if n_ < 2: return ('no feasible case', None, fn_where(S.fn))
+            return (None, 'near = n, far = f; perspective window scaled by n / near, orthographic window kept (%d cases)' % n_, fn_where(S.fn))
+        ob('modifyNearAndFar', 'R16.proj', modnf)
 
         def window():
             S = S_('w_window'); SL = S_('w_s2l')
